@@ -92,6 +92,12 @@ constexpr Arr<Wrap, 2> kW{{{1}, {300}}};
 static_assert(Ser<6>(kW) == Bytes<6>{{0xba, 0x02, 0x01, 0x81, 0x2c, 0x01}}, "W:array.non_integral_is_ary_count");
 constexpr Arr<std::int64_t, 1> kI64{{-2}};
 static_assert(Ser<10>(kI64) == Bytes<10>{{0xbc, 0x08, 0xfe, 0xff, 0xff, 0xff, 0xff, 0xff, 0xff, 0xff}}, "W:array.i64_lanes");
+constexpr Arr<char16_t, 2> kC16{{0x0102, 0x0304}};
+static_assert(Ser<6>(kC16) == Bytes<6>{{0xbc, 0x04, 0x02, 0x01, 0x04, 0x03}}, "W:array.char16_two_byte_lanes");
+constexpr Arr<bool, 3> kBool{{true, false, true}};
+static_assert(Ser<5>(kBool) == Bytes<5>{{0xbc, 0x03, 0x01, 0x00, 0x01}}, "W:array.bool_one_byte_lanes");
+constexpr Arr<char32_t, 1> kC32{{0x01020304}};
+static_assert(Ser<6>(kC32) == Bytes<6>{{0xbc, 0x04, 0x04, 0x03, 0x02, 0x01}}, "W:array.char32_four_byte_lanes");
 static_assert(Ser<5>(std::pair<std::uint8_t, std::int8_t>{200, -3}) == Bytes<5>{{0xba, 0x02, 0x80, 0xc8, 0xfd}}, "W:pair.ary2");
 static_assert(Ser<6>(std::make_tuple(std::uint8_t{1}, std::uint16_t{256})) == Bytes<6>{{0xba, 0x02, 0x01, 0x81, 0x00, 0x01}}, "W:tuple.ary_in_order");
 
